@@ -202,7 +202,13 @@ class Engine:
             src = textwrap.dedent(inspect.getsource(fn))
         except (OSError, TypeError) as e:
             raise Undecided(f'source of {fn!r} not available: {e}')
-        node = ast.parse(src).body[0]
+        try:
+            node = ast.parse(src).body[0]
+        except SyntaxError:
+            # a lambda inside a display (`'&&': lambda a, b: ...,`): parse from the keyword on
+            if 'lambda' not in src:
+                raise Undecided(f'cannot parse the source of {fn!r}')
+            node = ast.parse('(' + src[src.index('lambda') :].strip().rstrip(',') + ')').body[0]
         if not isinstance(node, (ast.FunctionDef, ast.Lambda)):
             # lambdas in a dict display etc.
             for sub in ast.walk(node):
